@@ -41,7 +41,10 @@ LSet(l, n, v) == IF ~LHas(l, n) THEN Append(l, <<n, v>>)
                  ELSE LET first == CHOOSE i \in 1..Len(l) : l[i][1] = n /\ \A j \in 1..(i-1) : l[j][1] # n
                           keepAfter(p) == p[1] # n
                       IN SubSeq(l, 1, first - 1) \o << <<n, v>> >> \o SelectSeq(Drop(l, first), keepAfter)
-ListOps == {"append", "delete", "set", "sort", "sortabs"}
+(* Iterate(f) hands every stored pair to f and then writes through; the harness's f appends v to every value *)
+LIterAppend(l, v) == [i \in 1..Len(l) |-> <<l[i][1], l[i][2] \o v>>]
+ListOps == {"append", "delete", "set", "sort", "sortabs", "iterappend"}
 ListOp(l, op, n, v) == CASE op = "append" -> LAppend(l, Ingest(n), Ingest(v)) [] op = "delete" -> LDelete(l, Ingest(n))
                          [] op = "set" -> LSet(l, Ingest(n), Ingest(v)) [] op = "sort" -> SortByName(l) [] op = "sortabs" -> SortByBoth(l)
+                         [] op = "iterappend" -> LIterAppend(l, Ingest(v))
 ====
